@@ -100,6 +100,19 @@ def impl(case):
             r = get_ephys_reader(d / 'a.npy', sample_rate=sr)
         elif backend == 'array':
             r = get_ephys_reader(A, sample_rate=sr)
+        elif backend == 'cbin' and len(parts) > 1:
+            # several compressed files given as a list of paths (one .cbin/.ch pair per part)
+            import mtscomp
+            paths, off = [], 0
+            for i, l in enumerate(parts):
+                A[off:off + l].tofile(d / ('p%d.bin' % i))
+                mtscomp.compress(d / ('p%d.bin' % i), d / ('p%d.cbin' % i), d / ('p%d.ch' % i), sample_rate=sr,
+                                 n_channels=nch, dtype=np.dtype(dtype), chunk_duration=case.get('cd', 1.), n_threads=1,
+                                 check_after_compress=False, quiet=True)
+                off += l
+                paths.append(d / ('p%d.cbin' % i))
+            r = get_ephys_reader(paths)
+            rd = r.reader
         elif backend == 'cbin':
             import mtscomp
             A.tofile(d / 'a.bin')
@@ -224,6 +237,8 @@ def classify(case, impl_res, ans, why):
     raised = None
     if 'ok' in impl_res and impl_res['ok']['res'] and 'raised' in impl_res['ok']['res'][0]:
         raised = impl_res['ok']['res'][0]['raised']
+    if case['backend'] == 'cbin' and len(case['parts']) > 1:
+        return dict(kind=why.split(':')[0], site='multi_cbin')
     return dict(kind=why.split(':')[0], item=next(iter(it), None), item_kind=kind,
                 cols=None if c is None else next(iter(c)), raised=raised or impl_res.get('raised'),
                 multi=len(it.get('list', [])) >= 2)
@@ -352,6 +367,10 @@ def gen(tier, rng):
             yield c
             if backend == 'npy' and nch >= 2:
                 yield dict(c, npy_order='F')
+    # several compressed files (the reader only takes the first one: open known finding)
+    for parts in ([4, 6], [3, 2, 5]):
+        its = [[{'slice': [None, None]}, None, 'py'], [{'int': sum(parts) - 1}, None, 'py'], [{'slice': [parts[0] - 1, parts[0] + 1]}, None, 'py']]
+        yield dict(p=PID, backend='cbin', parts=parts, nch=2, dtype='int16', sr=100., cd=.02, items=its)
     # random larger layouts
     for _ in range(120 if q else 2500):
         nparts = rng.randrange(1, 7)
